@@ -70,6 +70,13 @@ package client
 
 // ---------------------------------------------------------------- Submit (C13, C12)
 
+// the initialiser run through sync.Once always leaves the runtime with a client of its own, built from its transport and jar
+// (whatever the operation at hand brings along: the once-only initialiser serves every later call)
+//@ func (*Runtime).Submit$1
+//@ requires r != nil
+//@ ensures [C13:clientinit] r.client != nil && fresh(r.client) && r.client.Transport == r.Transport && r.client.Jar == r.Jar
+//@ assigns r.client
+
 //@ func (*Runtime).Submit
 //@ watch CR = call (*Runtime).createHttpRequest
 //@ watch BG = call context.Background
